@@ -71,7 +71,12 @@ def cstep (s : CState) (i : Nat) : CState :=
     match p.pc with
     | .done _ => s
     | .atLookup =>
-      if hasShelf s (lookupKey p) then setProc s i { p with pc := .atPlace (lookupKey p) (lookupKey p) }
+      if hasShelf s (lookupKey p) then
+        -- a hit.  The unpack tool does not run; a reject rule that names an entry of the ware is found by looking at the
+        -- shelf (`checkRejectRules`, since the `fix:` — before, the hit went straight to placement: warm cache = success,
+        -- cold cache = filter-rejection)
+        if p.yield = .error .filterRejection then setProc s i { p with pc := .done (.error .filterRejection) }
+        else setProc s i { p with pc := .atPlace (lookupKey p) (lookupKey p) }
       else if p.mode = .direct then
         -- direct mode on a miss: unpack straight into the destination, the cache is not touched
         setProc s i { p with pc := .done p.yield }
